@@ -47,6 +47,31 @@ def remainder_hash(repo, rel, dirs=None):
             except (ValueError, IndexError):
                 pass
         i += 1
+    # a function that is defined here, is neither under contract nor part of a trait impl, and whose name occurs NOWHERE else in the
+    # crate's sources (no call, no path, no method of that name anywhere) cannot influence any function under contract: adding such
+    # a function is not a change of the remainder.  (On the unchanged tree every written function is under contract, so there is none.)
+    def walk(its, inherent=True):
+        for it in its:
+            if it.kind == "fn" and inherent and not any(a <= it.start < b for a, b in drop):
+                yield it
+            elif it.kind == "impl":
+                for x in walk(it.children, it.trait is None):
+                    yield x
+            elif it.kind == "mod" and it.name != "tests":
+                for x in walk(it.children, True):
+                    yield x
+    cands = list(walk(items))
+    if cands:
+        counts = _name_counts(repo)
+        gone = set()
+        for it in cands:
+            if it.name and counts.get(it.name, 0) == 1:
+                drop.append((it.attr_start, it.end))
+                gone.add(id(it))
+        # an inherent impl block that consists of such functions only goes with them
+        for it in items:
+            if it.kind == "impl" and it.trait is None and it.children and all(id(c) in gone for c in it.children):
+                drop.append((it.attr_start, it.end))
     keep = []
     for i, t in enumerate(toks):
         if t.kind in ("dir", "comment"):
@@ -55,6 +80,25 @@ def remainder_hash(repo, rel, dirs=None):
             continue
         keep.append(t.text)
     return hashlib.sha1(" ".join(keep).encode()).hexdigest()
+
+
+_COUNTS = {}
+
+
+def _name_counts(repo):
+    """identifier -> number of occurrences over all of <repo>/src/**/*.rs (comments and string literals excluded)"""
+    key = os.path.abspath(repo)
+    if key not in _COUNTS:
+        c = {}
+        for f in glob.glob(os.path.join(repo, "src", "**", "*.rs"), recursive=True):
+            try:
+                for t in rustlex.lex(open(f).read()):
+                    if t.kind == "id":
+                        c[t.text] = c.get(t.text, 0) + 1
+            except (OSError, ValueError, IndexError):
+                pass
+        _COUNTS[key] = c
+    return _COUNTS[key]
 
 
 def load():
